@@ -15,7 +15,8 @@ import sys
 
 PID, K = sys.argv[1], sys.argv[2]
 TESTS = "--tests" in sys.argv
-SRC = "/tmp/seed/%s/SEED/%s" % (PID, K)
+ROOT = os.environ.get("SEED_ROOT", "/tmp/seed2")
+SRC = "%s/%s/SEED/%s" % (ROOT, PID, K)
 WT = "/tmp/seedtest/%s_%s" % (PID, K)
 VERIF = "/verif"
 
